@@ -187,6 +187,10 @@ inline Verdict expect_C07(const WSnap& pre, const CallInfo& ci) {
     int used = pInt(o, "POINT", "USED"), aused = pInt(o, "ANALOG", "USED");
     float prate = pFloat(o, "POINT", "RATE"), arate = pFloat(o, "ANALOG", "RATE");
     std::vector<std::string> labels = pStrs(o, "POINT", "LABELS"), alabels = pStrs(o, "ANALOG", "LABELS");
+    {   // the statement speaks of POINT:USED, POINT:RATE and POINT:LABELS: on an object loaded from a file that carries no POINT:LABELS (legal without points) its predicates are undefined
+        const GSnap* pg = o.group("POINT"); bool pointDeclared = pg && pg->find("USED") && pg->find("RATE") && pg->find("LABELS");
+        if (!pointDeclared && (ci.kind == K_FRAME || ci.kind == K_COL_POINT || ci.kind == K_POINT_NAME)) return v;
+    }
     if (ci.kind == K_FRAME) {
         const FrSnap& f = ci.given; std::vector<std::string> names = ptNames(f);
         if (used != 0 && f.pts.size() != (size_t)used) { v.classes.insert(RUNTIME_ERROR); v.why += "point count != POINT:USED; "; }
